@@ -21,6 +21,7 @@ partial file and re-raises) and the order of the checks of `load_signatures_hdf5
 from __future__ import annotations
 
 import ast
+import re
 import hashlib
 from pathlib import Path
 
@@ -231,6 +232,90 @@ def loader_facts(fn: ast.FunctionDef | None) -> dict:
 	return f
 
 
+def dist_flow_facts(repo: Path) -> dict:
+	"""`gambit dist`: which labels go with which signatures, which distance function fills the matrix, how the CSV is laid out.
+	Each fact is the presence of one statement in one place, compared as normalised text (ast.unparse), plus the absence of any other
+	assignment to the names involved."""
+	f = dict.fromkeys(['queryIds', 'refIds', 'square', 'matrix', 'sigsFromFiles', 'dump', 'noOtherStores', 'csvHeader', 'csvRows', 'csvFmt'], False)
+
+	def fn_of(path, name):
+		try:
+			tree = ast.parse((repo / 'src' / 'gambit' / path).read_text())
+		except (SyntaxError, OSError):
+			return None
+		return next((st for st in ast.walk(tree) if isinstance(st, ast.FunctionDef) and st.name == name), None)
+
+	def find_if(body, test):
+		return next((st for st in body if isinstance(st, ast.If) and ast.unparse(st.test) == test), None)
+
+	def texts(stmts):
+		# (a, b) = …  and  a, b = …  are the same statement (the unparser's choice differs between Python versions)
+		return [re.sub(r'^\((\w+, \w+)\) = ', r'\1 = ', ast.unparse(st)) for st in stmts]
+
+	def chain(ifst):
+		"""[(test text, body)] of an if / elif / else chain (else has test None)"""
+		out = []
+		while True:
+			out.append((ast.unparse(ifst.test), ifst.body))
+			if len(ifst.orelse) == 1 and isinstance(ifst.orelse[0], ast.If):
+				ifst = ifst.orelse[0]
+			else:
+				out.append((None, ifst.orelse))
+				return out
+	d = fn_of('cli/dist.py', 'dist_cmd')
+	if d is not None:
+		try:
+			q = chain(find_if(d.body, 'qs is not None'))
+			f['queryIds'] = ([t for t, _ in q] == ['qs is not None', None]
+			                 and texts(q[0][1])[:2] == ['query_sigs = load_signatures(qs)', 'query_ids = query_sigs.ids']
+			                 and texts(q[1][1])[:1] == ['query_ids, query_files = common.get_sequence_files(q, ql, qdir)'])
+			r = chain(find_if(d.body, 'rs is not None'))
+			f['refIds'] = ([t for t, _ in r] == ['rs is not None', 'use_db', 'square', None]
+			               and texts(r[0][1])[:2] == ['ref_sigs = load_signatures(rs)', 'ref_ids = ref_sigs.ids']
+			               and 'ref_sigs = ctxobj.signatures' in texts(r[1][1]) and 'ref_ids = ref_sigs.ids' in texts(r[1][1])
+			               and texts(r[1][1]).index('ref_sigs = ctxobj.signatures') < texts(r[1][1]).index('ref_ids = ref_sigs.ids')
+			               and texts(r[2][1])[:1] == ['ref_ids = query_ids']
+			               and texts(r[3][1])[:1] == ['ref_ids, ref_files = common.get_sequence_files(r, rl, rdir)'])
+			sq = [st for st in d.body if isinstance(st, ast.If) and ast.unparse(st.test) == 'square']
+			if len(sq) == 1:
+				c = chain(sq[0])
+				f['square'] = texts(c[0][1]) == ['dmat = jaccarddist_pairwise(query_sigs, progress=dist_pconf)']
+				f['matrix'] = bool(c[1][1]) and texts(c[1][1])[-1] == 'dmat = jaccarddist_matrix(query_sigs, ref_sigs, progress=dist_pconf)'
+				inner = find_if(c[1][1], 'ref_sigs is None')
+				qi = find_if(d.body, 'query_sigs is None')
+				f['sigsFromFiles'] = (inner is not None and qi is not None and not inner.orelse and not qi.orelse
+				                      and "ref_sigfiles = SequenceFile.from_paths(ref_files, 'fasta', 'auto')" in texts(inner.body)
+				                      and any(t.startswith('ref_sigs = calc_file_signatures(kspec, ref_sigfiles') for t in texts(inner.body))
+				                      and "query_sigfiles = SequenceFile.from_paths(query_files, 'fasta', 'auto')" in texts(qi.body)
+				                      and any(t.startswith('query_sigs = calc_file_signatures(kspec, query_sigfiles') for t in texts(qi.body)))
+			f['dump'] = texts(d.body)[-1] == 'dump_dmat_csv(output, dmat, query_ids, ref_ids)'
+			stores = {}
+			for x in ast.walk(d):
+				if isinstance(x, ast.Name) and isinstance(x.ctx, ast.Store):
+					stores[x.id] = stores.get(x.id, 0) + 1
+			f['noOtherStores'] = (stores.get('query_ids') == 2 and stores.get('ref_ids') == 4 and stores.get('dmat') == 2
+			                      and stores.get('query_sigs') == 3 and stores.get('ref_sigs') == 5)
+		except Exception:
+			pass
+	w = fn_of('cluster.py', 'dump_dmat_csv')
+	if w is not None:
+		try:
+			body = _body(w)
+			args = ast.unparse(w.args)
+			f['csvFmt'] = "fmt: str='0.4f'" in args and args.startswith('file') and [a.arg for a in w.args.args] == ['file', 'dmat', 'row_ids', 'col_ids', 'corner', 'fmt']
+			wi = body[0] if len(body) == 1 and isinstance(body[0], ast.With) else None
+			if wi is not None:
+				t = texts(wi.body)
+				f['csvHeader'] = t[:2] == ['writer = csv.writer(fobj)', "writer.writerow([corner or '', *map(str, col_ids)])"] and len(t) == 3
+				loop = wi.body[2] if len(wi.body) == 3 and isinstance(wi.body[2], ast.For) else None
+				f['csvRows'] = (loop is not None and ast.unparse(loop.target).strip('()') == 'row_id, values' and ast.unparse(loop.iter) == 'zip_strict(row_ids, dmat)'
+				                and not loop.orelse
+				                and texts(loop.body) == ['values_str = (format(d, fmt) for d in values)', 'writer.writerow([str(row_id), *values_str])'])
+		except Exception:
+			pass
+	return f
+
+
 def cli_facts(repo: Path) -> dict:
 	out = {'dist': False, 'create': False, 'query': False, 'query_parse': False}
 
@@ -407,6 +492,26 @@ def regenerate(repo: Path, out_dir: Path) -> dict:
 		fp.write_text(ftext)
 	report['modules']['PyCliFacts'] = hashlib.sha1(ftext.encode()).hexdigest()[:12]
 	report['functions'].append('cli/dist.py, cli/signatures.py, cli/query.py (where the parameters go)')
+	# --- src/gambit/cli/dist.py, cluster.py: the data flow of the distance command and the layout of its CSV ------------------------------
+	df = dist_flow_facts(repo)
+	DOC = {'queryIds': 'the query labels are the IDs of the query signature file, else what `get_sequence_files(q, ql, qdir)` returns with the files',
+	       'refIds': 'the reference labels are the IDs of the reference signature file / of the database\'s signatures / the query labels (`--square`) / what `get_sequence_files(r, rl, rdir)` returns',
+	       'square': '`--square`: the matrix is `jaccarddist_pairwise(query_sigs)` (square form: no `flat`, no `indices`)',
+	       'matrix': 'otherwise it is `jaccarddist_matrix(query_sigs, ref_sigs)` (no index selection, default chunking)',
+	       'sigsFromFiles': 'signatures that were not given pre-computed are `calc_file_signatures(kspec, SequenceFile.from_paths(<the files of that side>, \'fasta\', \'auto\'))`, which returns them in file order',
+	       'dump': 'the last statement is `dump_dmat_csv(output, dmat, query_ids, ref_ids)`: rows = queries, columns = references',
+	       'noOtherStores': 'the labels, the signatures and the matrix are assigned nowhere else in the function',
+	       'csvHeader': '`dump_dmat_csv` writes one header row: the corner cell, then `str` of every column label',
+	       'csvRows': '… then one row per `zip_strict(row_ids, dmat)` pair: `str(row_id)` followed by `format(d, fmt)` of every cell of that matrix row',
+	       'csvFmt': '… with `fmt` defaulting to `0.4f`'}
+	dtext = ('/-\nGENERATED by harness/pytrace.py from src/gambit/cli/dist.py and src/gambit/cluster.py — do not edit.\n'
+	         'Regenerated at the start of every check; `GambitV.Tie.PyDistFlow` proves them.\n-/\nnamespace GambitV.Gen\n\n'
+	         + ''.join(f'/-- {DOC[k]} -/\ndef pyDist_{k} : Bool := {b(v)}\n' for k, v in df.items()) + '\nend GambitV.Gen\n')
+	dp = out_dir / 'PyDistFlow.lean'
+	if not dp.exists() or dp.read_text() != dtext:
+		dp.write_text(dtext)
+	report['modules']['PyDistFlow'] = hashlib.sha1(dtext.encode()).hexdigest()[:12]
+	report['functions'].append('cli/dist.py dist_cmd, cluster.py dump_dmat_csv (data flow and CSV layout, structural facts)')
 	# --- src/gambit/results.py: the column table of the CSV exporter -----------------------------------------------------------
 	cols = None
 	try:
